@@ -107,6 +107,17 @@ Qed.
 Lemma head_or_in l q : head_or l None = Some q -> In q l.
 Proof. destruct l; cbn; [discriminate|]. intros E. injection E as ->. auto. Qed.
 
+Lemma nodup_split_unique_N (l1 l2 l1' l2' : list N) x :
+  NoDup (l1 ++ x :: l2) -> l1 ++ x :: l2 = l1' ++ x :: l2' -> l1 = l1' /\ l2 = l2'.
+Proof.
+  revert l1'. induction l1 as [|a l1 IH]; intros l1' Nd E; cbn [app] in *.
+  - destruct l1' as [|b l1']; cbn [app] in E; [injection E as E; auto|].
+    injection E as E1 E2. subst b. exfalso. apply NoDup_cons_iff in Nd. apply (proj1 Nd). rewrite E2, in_app_iff. right. left. reflexivity.
+  - apply NoDup_cons_iff in Nd. destruct Nd as [Na Nd]. destruct l1' as [|b l1']; cbn [app] in E.
+    + injection E as E1 E2. subst a. exfalso. apply Na. rewrite in_app_iff. right. left. reflexivity.
+    + injection E as E1 E2. subst b. destruct (IH _ Nd E2) as [-> ->]. auto.
+Qed.
+
 Lemma dll_chain f p l : dll f p l None <-> chain f p l.
 Proof.
   revert p. induction l as [|x l IH]; intros p; cbn [dll chain]; [tauto|].
@@ -247,6 +258,9 @@ Section Base.
     - rewrite app_nil_r. reflexivity.
     - rewrite IH. destruct fr as [c x r|c l x]; cbn [fill inorder]; rewrite <- !app_assoc; cbn [app]; reflexivity.
   Qed.
+
+  Lemma plug_app_base (c1 c2 : list frame) (t : tree) : plug (c1 ++ c2) t = plug c2 (plug c1 t).
+  Proof. revert t. induction c1 as [|fr c1 IH]; intros t; cbn [app plug]; [reflexivity|apply IH]. Qed.
 
   Lemma root_plug ctx sub : root_id id_of (plug ctx sub) = croot ctx (root_id id_of sub).
   Proof.
@@ -409,6 +423,32 @@ Section Base.
     rt = root_id id_of t /\ tinv sk f t None /\ dll f None (ids t) None
     /\ forall j, ~ In j (ids t) -> links_null (f j).
 
+  (* tree part / list part *)
+  Definition tlinks_null (h : hook) : Prop := h_parent h = None /\ h_left h = None /\ h_right h = None.
+  Definition treeS (sk : option N) (f : N -> hook) (rt : option N) (t : tree) : Prop :=
+    rt = root_id id_of t /\ tinv sk f t None /\ forall j, ~ In j (ids t) -> tlinks_null (f j).
+  Definition listS (f : N -> hook) (L : list N) : Prop :=
+    dll f None L None /\ forall j, ~ In j L -> h_pred (f j) = None /\ h_succ (f j) = None.
+  Lemma reprS_split sk f rt t : reprS sk f rt t <-> treeS sk f rt t /\ listS f (ids t).
+  Proof.
+    unfold reprS, treeS, listS, links_null, tlinks_null. split.
+    - intros (A & B & C & D). repeat split; auto; apply D; assumption.
+    - intros ((A & B & D1) & C & D2). repeat split; auto; try apply D1; try apply D2; assumption.
+  Qed.
+  Lemma listS_ps f g L : ps_same f g -> listS f L -> listS g L.
+  Proof.
+    intros Hp (A & B). split.
+    - revert A. apply dll_ext. intros j _. apply Hp.
+    - intros j Hj. destruct (Hp j) as [-> ->]. apply B, Hj.
+  Qed.
+  Lemma treeS_skip sk f rt t : treeS None f rt t -> treeS sk f rt t.
+  Proof. intros (A & B & D). repeat split; auto using tinv_skip; apply D; assumption. Qed.
+  Lemma treeS_ts sk f g rt t : ts_same f g -> treeS sk f rt t -> treeS sk g rt t.
+  Proof.
+    intros Ht (A & B & D). split; [exact A|]. split; [eapply tinv_ts; eassumption|].
+    intros j Hj. destruct (Ht j) as (E1 & E2 & E3 & _). destruct (D j Hj) as (D1 & D2 & D3). repeat split; congruence.
+  Qed.
+
   Lemma reprS_skip sk f rt t : reprS None f rt t -> reprS sk f rt t.
   Proof. intros (A & B & C & D). repeat split; auto using tinv_skip; apply D; assumption. Qed.
 
@@ -486,6 +526,15 @@ Section Base.
     reprS sk f rt (plug ctx E) -> cinv sk f ctx None /\ rt = croot ctx None.
   Proof. intros (A & B & _). apply tinv_plug in B. rewrite root_plug in A. cbn [root_id] in *. tauto. Qed.
 
+  (* every node of every tree is the focus of some context: the zipper form loses no generality *)
+  Lemma occ_plug (t : tree) par sub sp : occ id_of t par sub sp -> exists ctx, forall outer, plug (ctx ++ outer) sub = plug outer t.
+  Proof.
+    induction 1 as [t par|c l x a r par u sp O IH|c l x a r par u sp O IH].
+    - exists []. reflexivity.
+    - destruct IH as [ctx IH]. exists (ctx ++ [FL c x r]). intros outer. rewrite <- app_assoc. rewrite IH. destruct a. reflexivity.
+    - destruct IH as [ctx IH]. exists (ctx ++ [FR c l x]). intros outer. rewrite <- app_assoc. rewrite IH. destruct a. reflexivity.
+  Qed.
+
   (* colour tests on a pointer that is the root of a subtree *)
   Lemma tinv_root_color f t par :
     tinv None f t par -> match root_id id_of t with
@@ -513,6 +562,7 @@ Arguments eafter {elt} ctx.
 Arguments tinv {elt} id_of sk f t par.
 Arguments cinv {elt} id_of sk f ctx rid.
 Arguments reprS {elt} id_of sk f rt t.
+Arguments treeS {elt} id_of sk f rt t.
 Arguments repr_f {elt} id_of f rt t.
 Arguments with_child {elt} fr h v.
 
@@ -553,3 +603,12 @@ Ltac ni H :=
   | |- forall j, In j ?l -> _ => let j := fresh "j" in let Hj := fresh "Hj" in intros j Hj; ni H
   end.
 Ltac nix H a := solve [exfalso; ni_at H a].
+
+(* NoDup of the ids of a tree with the same in-order walk (recoloured / rotated / differently focused) *)
+Ltac nd_from H :=
+  let H' := fresh in
+  pose proof H as H'; cbn [plug fill app] in H' |- *; rewrite ?plug_app_base in H' |- *; cbn [plug fill app] in H' |- *;
+  rewrite ids_plug in H' |- *;
+  first [exact H'
+        | repeat (progress (cbn [inorder map app] in H'; rewrite ?map_app in H'; rewrite <- ?app_assoc in H'));
+          repeat (progress (cbn [inorder map app]; rewrite ?map_app; rewrite <- ?app_assoc)); exact H'].
